@@ -59,8 +59,8 @@ func main() {
 		"iso:api-ok:code", "iso:api-ok:userinfo", "iso:api-ok:refresh", "iso:api-ok:endsession", "iso:api-ok:revoke", "iso:api-ok:clientcreds", "iso:api-ok:device",
 		"iso:api-ok:browser", "iso:api-ok:verify", "iso:api-ok:introspect", "iso:api-ok:exchange", "iso:api-ok:token",
 		"iso:device-poll-success", "iso:redirect-probe-ok:discovery", "iso:redirect-probe-ok:token", "iso:redirect-probe-ok:userinfo",
-		"extra:pair-judged", "extra:findkey-pair-judged", "extra:keyset-token-judged", "extra:shared-verifier-step-judged",
-		"conc:round-with-yield-jitter", "preempt:pair-judged:static", "preempt:flow-step-parked:static", "preempt:pair-judged:host-derived", "preempt:flow-step-parked:host-derived",
+		"extra:pair-judged", "extra:findkey-pair-judged", "extra:keyset-token-judged", "extra:keyset-cancel-round-judged", "extra:shared-verifier-step-judged",
+		"conc:round-with-yield-jitter", "iso:interceptor-list-shared-by-two-providers", "preempt:pair-judged:static", "preempt:flow-step-parked:static", "preempt:pair-judged:host-derived", "preempt:flow-step-parked:host-derived",
 		"wire:pair-judged", "wire:pair-judged-after-encode-failure", "wire:failed-before-the-wire:encode", "wire:failed-before-the-wire:new-request", "wire:failed-before-the-wire:context",
 	)
 	run.Mandatory(mandatoryNames...)
